@@ -1725,3 +1725,19 @@ M("C12-element-flags-regrouped", "C12", "src/interrogatedb/interrogateElement.h"
 M("C12-benign-new-element-flag", "C12", "src/interrogatedb/interrogateElement.h",
   "    F_has_getkey_function= 0x0200,", "    F_has_getkey_function= 0x0200,\n    F_reserved_for_later = 0x0400,",
   benign=True)
+
+# ---------------------------------------------------------------- R14.8 (seed S7-C14)
+M("C14-open-write-default-keeps-old-contents", "C14", "src/dtoolutil/filename.h",
+  "  bool open_write(std::ofstream &stream, bool truncate = true) const;", "  bool open_write(std::ofstream &stream, bool truncate = false) const;",
+  expect="R14.8|")
+M("C14-benign-open-write-explicit-true", "C14", "src/interrogate/interrogate.cxx",
+  "    output_data_filename.open_write(output_data);", "    output_data_filename.open_write(output_data, true);",
+  benign=True)
+
+# ---------------------------------------------------------------- R15.7 inherits-outer-ignore-set (seed S7-C15)
+M("C15-nested-ignores-forget-outer-macros", "C15", "src/cppparser/cppPreprocessor.cxx",
+  "          CPPManifest::Ignores nested_ignores(ignores);", "          CPPManifest::Ignores nested_ignores;",
+  expect="R15.7|expand_manifests|")
+M("C15-benign-nested-ignores-assigned", "C15", "src/cppparser/cppPreprocessor.cxx",
+  "          CPPManifest::Ignores nested_ignores(ignores);", "          CPPManifest::Ignores nested_ignores = ignores;",
+  benign=True)
